@@ -115,6 +115,12 @@ def _work(units):
                     acc.add("ambiguous_skipped")
                     continue
                 progcheck.check_prog(acc, ast, envs[:6], "gram:ws:" + repr(sep), text=sep + text + sep)
+            # the two-word tokens `not in` and `else if` with this white space between their words
+            two = ("prog", "exp", None, ("uid",), ("if", ("cmp", ("id", "f"), "not in", ("tup", (("lit", 1), ("lit", 2)))), ("ret", (("A", "1"),)),
+                                                   ("elif", ("cmp", ("lit", 3), "not in", ("id", "g")), ("ret", (("B", "1"),)), ("elif", ("cmp", ("id", "f"), "in", ("id", "g")), ("ret", (("C", "1"),)), None))))
+            t2 = rp.render(two).replace("not in", "not" + sep + "in").replace("else if", "else" + sep + "if")
+            if rp.classify(t2) == ("accept", two):
+                progcheck.check_prog(acc, two, [{"uid": 1, "f": f, "g": g} for f in (1, 3) for g in ((1, 2), (3,), ())], "gram:ws2:" + repr(sep), text=t2)
         elif u[0] == "after":
             # a grammatical text must compile whatever was compiled before it in this process
             _, poison = u
@@ -166,6 +172,14 @@ def units(tier):
         n = esh.count_shapes(P)
         out += [("shape", P, lo, min(n, lo + 16)) for lo in range(0, n, 16)]
     out += [("after", p) for p in POISON]
+    # every operator x operand kind with NO else branch: the false outcome is the unroutable error whatever the field holds
+    from ..enum import ops as eops
+
+    for tag, pred, envs in eops.op_cases():
+        if ":lit" in tag and "lit" in tag.split(":", 1)[1].replace("lit", "", 1):
+            continue
+        a = esh.prog_of(("if", pred, ("ret", (("T", "1"),)), None))
+        out.append(("case", "noelse:" + tag.split(":")[0], a, [dict(e, u="id7") for e in envs]))
     out += [("ws", sep) for sep in ("\t", "\n", "\r\n", "\r", "\x0c", "\x0b", " \t ", "\n\n", " \r\n\t", "\x0c\n", " \x0b ", "\r\r\n", "  ")]
     B = eb.all_bases()
     for nme in (eb.SMALL if tier == "quick" else sorted(B)):
